@@ -83,7 +83,8 @@ CHECKS["C04"] = dict(
     level_note="Duplicate-key fan-ins (merge failure for values, silently concatenated for streams) are not generated and skipped if they arise: the statement does not fix them. any-typed node inputs are not generated (the framework has no concatenation for interface-typed chunks).",
     rule="rapid draws a GraphSpec with paradigm subsets/chunk plans/state/stream branches, an input, an input chunking and optionally a fault; non-trivial = >= 2 distinct native paradigm subsets among lambdas, a natively streaming producer with >= 2 chunks, >= 2 predicted executions and one of: fan-out, fan-in, stream branch, key wrapping, field mapping, state handler; distinct = FNV-1a of case JSON",
     assumptions=GRAPH_ASSUME,
-    parts=[rapid_part("rapid", "compose", "TestC04", 3000, 180000, qshards=4, replay_test="TestC04Replay")],
+    parts=[rapid_part("rapid", "compose", "TestC04", 3000, 180000, qshards=4, replay_test="TestC04Replay"),
+           rapid_part("typed", "compose", "TestC04Typed", 8000, 800000, replay_test="TestC04TypedReplay")],
 )
 
 HIST_RULE = ("rapid draws a GraphSpec (pregel / all-predecessor / workflow, nested, optional state with handlers and ProcessState), interrupt-before and "
